@@ -208,11 +208,13 @@ where
                     for (f, nb) in fresh_bases.iter() {
                         // the new element's own coordinate must be a single non-zero monomial in the fresh challenges
                         let own: Vec<&(u32, crate::expand::Mono, String, u32)> = coefs.iter().filter(|c| c.0 == *nb).collect();
-                        if own.len() != 1 || own[0].3 != lit1 {
-                            // not syntactically a monomial with coefficient 1: maybe its scalar involves old challenges
-                            // (only legitimate when the field precedes no challenge at all, which never holds for points)
+                        if own.len() != 1 {
                             job.check(&format!("sensitivity: the scalar of {} is a non-zero monomial of the fresh challenges", f.name()), false, format!("{} monomials", own.len()));
                             continue;
+                        }
+                        if own[0].3 != lit1 {
+                            // e.g. u_0 * inv(u_0) for a round point behind an older round: the solver shows it is 1
+                            items.push((format!("coefficient of the monomial {} on the new element's coordinate is 1", own[0].2), own[0].3, lit1));
                         }
                         let mstar = own[0].1.clone();
                         job.check(&format!("sensitivity: the scalar of {} is the non-zero monomial {}", f.name(), own[0].2), !mstar.is_empty() || late.is_empty(), String::new());
